@@ -3,11 +3,13 @@ from vp.seqir import seqir
 TITLE = "The concurrent hash table is a linearizable map across resizes"
 U = "parsec/class/parsec_hash_table.c"
 RW = "parsec/class/parsec_rwlock.c"
-OUTSIDE = ["more than 4 distinct keys / histories longer than K", "user key functions other than the generic 64-bit one",
-           "weak-memory reorderings (SC only)", "HELPFIRST variant (not compiled in)", "allocation failure"]
+OUTSIDE = ["more than 4 distinct keys / more than 3 table levels (2, 4, 8 buckets)", "user key functions other than the generic 64-bit one",
+           "weak-memory reorderings (SC only)", "HELPFIRST variant (not compiled in)", "allocation failure",
+           "concurrent half: schedules in which a thread gets more than R scheduling slots before the drain phase; more than 2 threads"]
 ASSUMPTIONS = ["caller contract: a key is inserted only if absent (the table does not check duplicates)",
-               "mca parameters not registered (index = PARSEC_ERROR): max_collisions_hint / max_table_nb_bits set directly by the harness"]
-BOUNDS = {"quick": {"K": 4, "keys": 4, "hint": [0, 1]}, "thorough": {"K": "4..6"}}
+               "mca parameters not registered (index = PARSEC_ERROR): max_collisions_hint / max_table_nb_bits set directly by the harness",
+               "inductive argument: INV holds after init (query init), every operation from every INV state re-establishes INV and changes the contents as the map model says (one query per operation kind) => histories of any length over <=4 keys / <=3 levels"]
+BOUNDS = {"quick": {"keys": 4, "levels": "1..3", "hint": "0..2 (symbolic)", "operations": "1 from every valid state"}, "thorough": {}}
 
 def rehash(k, nb):
     a = 0xaa88564915a; b = 0x165e44f1fc94; M = (1 << 64) - 1
@@ -25,26 +27,29 @@ def pick_keys():
                     if k3 in (k0, k1, k2) or rehash(k3, 1) == rehash(k0, 1): continue
                     return [k0, k1, k2, k3]
 KEYS = pick_keys()
+KD = ["KEY%d=%dULL" % (i, k) for i, k in enumerate(KEYS)]
+OPS = {"insert": 0, "find": 1, "remove": 2, "find_or_insert_handle": 3, "for_all": 4, "fini": 5, "init": 6, "lock_nolock_ops_unlock": 7}
+UF = {"parsec_atomic_lock": 2, "parsec_atomic_rwlock_rdlock": 2, "parsec_atomic_rwlock_wrlock": 2,
+      "parsec_hash_table_nolock_find_handle": 5, "parsec_hash_table_nolock_remove_handle": 5,
+      "parsec_hash_table_nolock_find_in_old_tables": 5, "parsec_hash_table_nolock_remove_from_old_tables": 5,
+      "scan_bucket": 6}
 
 def queries(ctx):
     qs = []
-    kd = ["KEY%d=%dULL" % (i, k) for i, k in enumerate(KEYS)]
-    def seq(K, hint, tiers):
-        qs.append(Q("seq_k%d_hint%d" % (K, hint), ["ha.c", "repo:" + RW], defs=kd + ["K=%d" % K, "HINT=%d" % hint], unwind=9, units=[U, "parsec/class/parsec_hash_table.h"],
-                    unwind_fn={"parsec_atomic_lock": 2, "parsec_atomic_rwlock_rdlock": 2, "parsec_atomic_rwlock_wrlock": 2, "parsec_hash_table_init": 3,
-                               "parsec_hash_table_nolock_find_handle": 5, "parsec_hash_table_nolock_remove_handle": 5,
-                               "parsec_hash_table_nolock_find_in_old_tables": 5, "parsec_hash_table_nolock_remove_from_old_tables": 5},
-                    checks=["bounds", "pointer"], object_bits=12, timeout=3000, tiers=tiers, slow=True,
-                    info={"symbolic": ["operation kind (insert/find/remove/find-or-insert with handle) and key index at each of K steps"],
-                          "enumerated": ["max_collisions_hint", "4 concrete keys %s (collide at 1 bit, split at 2 and 3 bits)" % KEYS],
-                          "bounds": {"K": K, "nb_bits_initial": 1, "max_table_nb_bits": 5},
-                          "functions": ["parsec_hash_table_init", "insert_impl", "find", "remove", "lock_bucket_handle", "nolock_find_handle", "nolock_insert_handle",
-                                        "unlock_bucket_handle_impl", "resize", "nolock_find_in_old_tables", "nolock_remove_from_old_tables", "for_all", "fini"],
-                          "stubs": ["parsec_output_verbose (empty)", "mca param registration (returns PARSEC_ERROR)"]}))
-    seq(2, 0, ("quick", "thorough"))
-    seq(3, 0, ("quick", "thorough"))
-    if ctx.thorough:
-        seq(5, 1, ("thorough",)); seq(5, 0, ("thorough",)); seq(6, 1, ("thorough",))
+    def ind(name, extra=(), tiers=("quick", "thorough"), checks=()):
+        qs.append(Q("ind_" + name + ("_mem" if checks else ""), ["hi.c", "repo:" + RW], defs=KD + ["OP=%d" % OPS.get(name, 1)] + list(extra), unwind=9, unwind_fn=UF,
+                    units=[U, "parsec/class/parsec_hash_table.h"], checks=list(checks), object_bits=12, timeout=1500, tiers=tiers,
+                    info={"symbolic": ["pre-state: top level T in 0..2, which old levels are linked, per key absent / level where stored, order inside buckets, max_collisions_hint 0..2, rwlock ticket counters",
+                                       "which of the 4 keys is operated on"],
+                          "enumerated": ["operation kind = %s" % name, "4 concrete keys %s (collide at 1 bit, split at 2 and 3 bits)" % KEYS],
+                          "bounds": {"levels": 3, "keys": 4, "max_table_nb_bits": 4},
+                          "functions": ["parsec_hash_table_init", "insert_impl", "find", "remove", "lock_bucket(_handle)", "nolock_find(_handle)", "nolock_insert(_handle)", "nolock_remove(_handle)",
+                                        "unlock_bucket(_handle)_impl", "resize", "nolock_find_in_old_tables", "nolock_remove_from_old_tables", "for_all", "fini", "universal_rehash",
+                                        "parsec_atomic_rwlock_* (real, linked)"],
+                          "stubs": ["parsec_output_verbose (empty)", "mca param registration (returns PARSEC_ERROR)", "malloc/free = static typed pools, one head + one bucket array per level"]}))
+    ind("selfcheck", ["SELFCHECK=1"])
+    for name in ("init", "insert", "find", "remove", "find_or_insert_handle", "lock_nolock_ops_unlock", "for_all", "fini"):
+        ind(name)
     return qs
 def mutants(ctx):
     return [
